@@ -161,7 +161,16 @@ def oracle(case) -> Info:
         raw[bit // 8] ^= 1 << (bit % 8)
     elif kind == "checksum":
         style, val = mut[1], mut[2]
-        v = {"zero": 0, "plus1": (a0["crc"] + 1) & 0xFFFF, "minus1": (a0["crc"] - 1) & 0xFFFF, "swapped": ((a0["crc"] & 0xFF) << 8) | (a0["crc"] >> 8), "drawn": val, "true": a0["crc"]}[style]
+        body0 = bytes(raw[: end + 1])
+        variants = {
+            "of-crlf-variant": crc16_arc(body0.replace(b"\r\n", b"\n").replace(b"\n", b"\r\n")),  # checksum of the CR LF form of a bare-LF readout (and vice versa)
+            "of-lf-variant": crc16_arc(body0.replace(b"\r\n", b"\n")),
+            "without-bang": crc16_arc(body0[:-1]),
+            "without-slash": crc16_arc(body0[1:]),
+            "of-data-only": crc16_arc(body0[a0["data_start"] :]),
+            "ccitt-init": crc16_arc(b"\xff\xff" + body0),
+        }
+        v = {"zero": 0, "plus1": (a0["crc"] + 1) & 0xFFFF, "minus1": (a0["crc"] - 1) & 0xFFFF, "swapped": ((a0["crc"] & 0xFF) << 8) | (a0["crc"] >> 8), "drawn": val, "true": a0["crc"], **variants}[style]
         text = f"{v:04X}"
         case_style = mut[3]
         text = text.lower() if case_style == "lower" else ("".join(c.lower() if i % 2 else c for i, c in enumerate(text)) if case_style == "mixed" else text)
@@ -198,6 +207,8 @@ def oracle(case) -> Info:
                 raw = bytearray(bytes(raw[: a1["end"] + 1]) + f"{a1['crc']:04X}".encode() + b"\r\n")
     raw = bytes(raw)
     untouched = kind == "none" or (kind == "checksum" and mut[1] == "true")
+    if kind == "checksum" and mut[1] not in ("zero", "plus1", "minus1", "swapped", "drawn", "true") and analyse(bytes(raw))["checksum"] == a0["crc"]:
+        untouched = True  # the 'wrong' recipe happens to give the true CRC (e.g. CR LF variant of a CR LF readout)
     a = analyse(raw)
     classes = [f"mut:{kind}" + (f":{mut[1]}" if kind in ("checksum", "ident") else ""), f"access-first:{access}"]
     results = []
@@ -235,11 +246,16 @@ def case_st(draw):
     else:
         spec = draw(G.readout_spec_st(max_lines=12))
         base = G.build_readout(spec)
+        if draw(st.integers(0, 4)) == 4:
+            # the same readout with bare LF line ends (checksum recomputed over the bytes as sent)
+            a = analyse(base)
+            body = base[: a["end"] + 1].replace(b"\r\n", b"\n")
+            base = body + (f"{crc16_arc(body):04X}".encode() if a["checksum"] is not None else b"") + b"\n"
     kind = draw(st.sampled_from(["none", "bitflip", "bitflip", "checksum", "checksum", "checksum", "nochecksum", "ident"]))
     if kind == "bitflip":
         mut = ("bitflip", draw(st.integers(0, 10**7)))
     elif kind == "checksum":
-        mut = ("checksum", draw(st.sampled_from(["zero", "zero", "plus1", "minus1", "swapped", "drawn", "true"])), draw(st.integers(0, 0xFFFF)), draw(st.sampled_from(["upper", "lower", "mixed"])))
+        mut = ("checksum", draw(st.sampled_from(["zero", "zero", "plus1", "minus1", "swapped", "drawn", "true", "of-crlf-variant", "of-crlf-variant", "of-lf-variant", "without-bang", "without-slash", "of-data-only", "ccitt-init"])), draw(st.integers(0, 0xFFFF)), draw(st.sampled_from(["upper", "lower", "mixed"])))
     elif kind == "ident":
         mut = ("ident", draw(st.sampled_from(["lower", "nobaud", "long", "ctrl", "digitman", "highbit", "highbit", "trailing-8bit-space", "class-boundary-char", "class-boundary-char"])), draw(st.booleans()), draw(st.integers(0, 63)))
     else:
@@ -252,9 +268,9 @@ def build() -> Check:
         pid="C04",
         level="exploration",
         rule=(
-            "Base readouts from the IEC 62056-21 grammar (varied identification lines, 0..12 data lines, checksum upper/lower/absent) plus six "
+            "Base readouts from the IEC 62056-21 grammar (varied identification lines with up to 8 escape sequences, 0..12 data lines, CR LF or bare LF line ends, checksum upper/lower/absent) plus six "
             "readouts constructed to have true CRC 0x0000; then one mutation: none | any single bit flipped | checksum field replaced "
-            "(0000, true+-1, octets swapped, drawn value, true value; upper/lower/mixed case) | checksum removed | identification line "
+            "(0000, true+-1, octets swapped, drawn value, true value, the CRC of a transformed copy - CR LF<->LF line ends, without '!' or '/', data block only, other initial value; upper/lower/mixed case) | checksum removed | identification line "
             "damaged (lower-case letters, missing baud digit, >16 id chars, control char, digit in manufacturer id, bit 7 set on any "
             "character, trailing 0x85/0xA0, a character adjacent to the allowed class (@ [ ` { / :) in the manufacturer id or baud position; checksum recomputed or not). Each is delivered directly (DataReadout(bytes)) and through a ModeDReader with a drawn splitting and a drawn reader history (fresh, after a valid readout, after an abandoned >8191-byte readout, after an over-long line, after an invalid readout, after stray identification lines). Non-trivial = the "
             "mutated readout carries a syntactic 4-hex checksum that differs from the true CRC, or it is untouched, and at least one object "
